@@ -197,6 +197,13 @@ def run(ctx, rep):
     _c18.arity_use(rep, ctx)
     from rules import c13 as _c13
     common.share(_c13, ctx, rep, {"C13-ALIAS-TABLE", "C13-ALIAS-BLIND"})
+    # set / define / | are functions of the library too: (set n v body) rebinds n for the body whatever was bound
+    # before - the derived context adds the new entry unconditionally and it shadows an older one - and (| a b) hands
+    # every stage's value on as the next input (shared with C12; seed C04-r10-2: or_insert instead of insert)
+    from rules import c12 as _c12
+    common.share(_c12, ctx, rep, {"C12-FRAME", "C12-EXTEND"}, key_prefixes=["with_variable", "with_definition"],
+                 floors={"C12-FRAME": 0, "C12-EXTEND": 0})
+    common.share(_c12, ctx, rep, {"C12-SHADOW", "C12-BODY-IN-NEW", "C12-PIPE"})
 
 
 # ------------------------------------------------------------------ C04-ZERO-TAKES-NOTHING
